@@ -12,6 +12,7 @@ pub mod c19;
 pub mod c20;
 pub mod contract;
 pub mod cgen;
+pub mod chprops;
 pub mod cview;
 pub mod sgen;
 pub mod sprops;
@@ -27,7 +28,9 @@ pub fn dispatch(id: &str, args: &RunArgs) -> i32 {
         "C04" => run_prop(&wrap::C04, args),
         "C05" => run_prop(&c05::C05, args),
         "C06" => run_prop(&wrap::C06, args),
+        "C07" => run_prop(&wrap::C07, args),
         "C08" => run_prop(&wrap::C08, args),
+        "C18" => run_prop(&wrap::C18, args),
         "C12" => run_prop(&wrap::C12, args),
         "C09" => run_prop(&wrap::C09, args),
         "C10" => run_prop(&wrap::C10, args),
